@@ -31,7 +31,7 @@ CLASSES = {
 for _n, _t in [("composition.mmm", "stage-0 VM"), ("mininotation.mmm", "stage-0 VM"), ("noise.mmm", "stage-0 VM"), ("pattern.mmm", "stage-0 VM")]:
     CLASSES[_n] = ("corpus:" + _n, f"compiling the shipped library file lib/{_n} as the root source panics inside the macro-stage VM (Machine::get_stack_range: 'range end index N out of range for slice of length N') instead of answering with a result or diagnostics")
 CLASSES["drive.mmm"] = ("corpus:drive.mmm", "compiling the shipped library file lib/drive.mmm as the root source panics in the type checker ('Qualified Var should be removed in the previous step', typing.rs) instead of answering with a result or diagnostics")
-props = sys.argv[1:] or ["C01", "C02", "C03"]
+props = sys.argv[1:] or ["C01", "C02", "C03", "C05"]
 lines = []
 for f in sorted(glob.glob(VERIF + "/findings/core/*.json")) + sorted(glob.glob(VERIF + "/findings/corpus/*.json")):
     stem = os.path.basename(f)[:-5]
